@@ -24,6 +24,7 @@ def run(chk, replay=None):
         chk.note_tlc(run_)
         chk.absorb(recs, verdicts, rp)
     chk.exhaustive = True
+    vcheck.absorb_sim(chk, rp, 'NixProp', 'MC_NixProp_sim.cfg', 400 if chk.thorough else 40, 14)
     chk.traces_validated = len(chk.distinct)
     chk.rule = ('one case per transition of all assign / replace / clear / unit / uncertainty / definition / reopen histories (depth 2 quick, 3 thorough) for '
                 'each of 7 value types x 3 creation overloads, incl. vectors with a wrong-typed value at every position; lengths stretched by seed')
